@@ -160,6 +160,32 @@ Theorem C01_timeline_hypotheses : forall (I : state -> Prop),
   (forall a x x' y, TrI I a x y -> eqvI I x x' -> TrI I a x' y).
 Proof. intros I. exact (conj (eqvI_refl I) (conj (eqvI_trans I) (conj (TrI_inv I) (TrI_src I)))). Qed.
 
+(* ---- composite user actions, on well-formed states (WF: all invariants of Proofs/EditInv.v) ----
+   UserDeleteEdge (both the plain and the division case), UserAddEdge (join / new division, with
+   and without the forced removal of the merge edge), UserUpdateNodeAttrs: applying the action
+   and inverting the recorded group restores the observable state.  (The core functions are the
+   user actions without the history push and the refresh signal, which obs_eq does not look at.) *)
+Theorem C01_user_delete_edge : forall st u v a st',
+  WF st -> user_delete_edge_core st u v = Ok a st' ->
+  exists b st2, inv_action st' a = Ok b st2 /\ obs_eq st2 st.
+Proof. exact EditInverse.C01_user_delete_edge. Qed.
+
+Theorem C01_user_add_edge : forall st u v force a st',
+  WF st -> user_add_edge_core st u v force = Ok a st' ->
+  exists b st2, inv_action st' a = Ok b st2 /\ obs_eq st2 st.
+Proof. exact EditInverse.C01_user_add_edge. Qed.
+
+Theorem C01_user_update_attrs : forall st n new a st1,
+  user_update_attrs_core st n new = Ok a st1 ->
+  exists b st2, inv_action st1 a = Ok b st2 /\ obs_eq st2 st.
+Proof. exact EditInverse.C01_user_update_attrs. Qed.
+
+(* the track-id fact behind the UpdateTrackIDs precondition inside these user actions: on a
+   well-formed state the track id of a dividing node does not occur below it *)
+Theorem C01_trk_below_division : forall st u c x,
+  W_dict st -> W_forest st -> W_trk st -> edge st u c -> divides st u -> EditWalk.reach st c x -> trk st x <> trk st u.
+Proof. exact trk_below_division. Qed.
+
 (* ---- example: 3 nodes, 3 frames of 2x2 pixels ----
      frame 0: 1 1 / 0 0     frame 1: 2 2 / 0 0     frame 2: 3 0 / 0 0      edge 2 -> 3 *)
 Definition fx : feats :=
@@ -254,6 +280,28 @@ Proof.
   - vm_compute. split; reflexivity.
 Qed.
 
+(* the preconditions are necessary: without them the model (like the implementation) does not
+   restore the state.  (1) AddNode without pixels at a time outside the array: the inverse raises
+   IndexError (code 16);  (2) UpdateTrackIDs reusing an id found downstream (chain 1->2->3 with
+   track ids 1/2/2, node 1 relabelled to 2): the inverse relabels all three nodes;  (3) AddEdge
+   over an existing edge: the inverse removes the edge;  (4) UpdateNodeSeg "shrinking" node 2 by a
+   pixel that was background: the inverse paints it. *)
+Definition ex1 : state :=
+  mk_state [(1, nd 0 1 1 [0;1]); (2, nd 1 2 1 [0;1]); (3, nd 2 2 1 [0])]
+           [(1, 2, [(KIou, VIou 2 2)]); (2, 3, [(KIou, VIou 1 2)])]
+           (Some [[1;1;0;0]; [2;2;0;0]; [3;0;0;0]]) fx
+           [(1, [1]); (2, [2;3])] [(1, [1;2;3])] 2 1 4.
+Example C01_preconditions_necessary :
+  let undo_of (r : res basic) := match r with Ok b s => inv_basic s b | Err e s => Err e s end in
+  let st_of (r : res basic) := match r with Ok _ s => s | Err _ s => s end in
+  let code (r : res basic) := match r with Ok _ _ => 0 | Err e _ => ecode e end in
+  (code (do_add_node ex0 4 (nd 7 3 3 []) None) = 0 /\ code (undo_of (do_add_node ex0 4 (nd 7 3 3 []) None)) = 16) /\
+  (map (fun n => attr ex1 n KTrack) [1;2;3] = [Some (VZ 1); Some (VZ 2); Some (VZ 2)] /\
+   map (fun n => attr (st_of (undo_of (do_upd_track ex1 1 2 None))) n KTrack) [1;2;3] = [Some (VZ 1); Some (VZ 1); Some (VZ 1)]) /\
+  (has_edge ex0 2 3 = true /\ has_edge (st_of (undo_of (do_add_edge ex0 2 3 []))) 2 3 = false) /\
+  (seg (st_of (undo_of (do_upd_seg ex0 2 (1, [2]) false))) = Some [[1;1;0;0]; [2;2;2;0]; [3;0;0;0]]).
+Proof. vm_compute. repeat split. Qed.
+
 Print Assumptions C01_obs_eq_equivalence.
 Print Assumptions C01_basic_add_edge.
 Print Assumptions C01_basic_add_edge_exact.
@@ -266,5 +314,9 @@ Print Assumptions C01_basic_del_node.
 Print Assumptions C01_basic_upd_track.
 Print Assumptions C01_basic_upd_track_exact.
 Print Assumptions C01_inverse_reads_core_only.
+Print Assumptions C01_user_delete_edge.
+Print Assumptions C01_user_add_edge.
+Print Assumptions C01_user_update_attrs.
+Print Assumptions C01_trk_below_division.
 Print Assumptions C01_group.
 Print Assumptions C01_timeline_hypotheses.
